@@ -3,6 +3,7 @@ package props
 import (
 	"context"
 	"fmt"
+	"net"
 	"os"
 	"path/filepath"
 	"regexp"
@@ -21,6 +22,10 @@ import (
 	ctrl "sigs.k8s.io/controller-runtime"
 	"sigs.k8s.io/controller-runtime/pkg/client/fake"
 
+	"google.golang.org/grpc"
+	"google.golang.org/grpc/credentials/insecure"
+	"google.golang.org/grpc/metadata"
+	"google.golang.org/grpc/test/bufconn"
 	"google.golang.org/protobuf/proto"
 	"google.golang.org/protobuf/types/known/durationpb"
 
@@ -332,9 +337,34 @@ func c16Prop(c *sim.Case) {
 		}
 	}
 
-	var inflight, maxInflight, checks, panics, hung int64
+	// half of the workloads go through the gRPC server the service runs (request-id and logging interceptors included),
+	// over an in-memory listener, instead of calling the filter directly
+	var grpcCheck func(req *envoy.CheckRequest, n int64) (*envoy.CheckResponse, error)
+	if pickBool("via-grpc-server") {
+		lis := bufconn.Listen(1 << 20)
+		srv := server.New(full, filter.Register)
+		srv.Listen = func() (net.Listener, error) { return lis, nil }
+		if err := srv.PreRun(); err != nil {
+			c.Violation("server-error", "gRPC server set-up: %v", err)
+		}
+		go func() { _ = srv.Serve() }()
+		conn, err := grpc.NewClient("passthrough:///bufnet", grpc.WithTransportCredentials(insecure.NewCredentials()),
+			grpc.WithContextDialer(func(ctx context.Context, _ string) (net.Conn, error) { return lis.DialContext(ctx) }))
+		if err != nil {
+			c.Violation("server-error", "gRPC client: %v", err)
+		}
+		client := envoy.NewAuthorizationClient(conn)
+		defer func() { _ = conn.Close(); srv.GracefulStop() }()
+		grpcCheck = func(req *envoy.CheckRequest, n int64) (*envoy.CheckResponse, error) {
+			ctx, cancel := context.WithTimeout(metadata.AppendToOutgoingContext(context.Background(), "x-request-id", fmt.Sprintf("rid-%d", n)), 60*time.Second)
+			defer cancel()
+			return client.Check(ctx, req)
+		}
+		c.Class("workload:via-grpc-server")
+	}
+	var inflight, maxInflight, checks, panics, hung, reqIDs int64
 	check := func(t *c16Tenant, path, cookie string) *sim.Resp {
-		h := map[string]string{"x-tenant": t.name}
+		h := map[string]string{"x-tenant": t.name, "x-request-id": fmt.Sprintf("req-%d", atomic.AddInt64(&reqIDs, 1))}
 		if cookie != "" {
 			h["cookie"] = cookie
 		}
@@ -361,7 +391,11 @@ func c16Prop(c *sim.Case) {
 				}
 			}()
 			var resp *envoy.CheckResponse
-			resp, r.Err = filter.Check(context.Background(), req.Envoy())
+			if grpcCheck != nil {
+				resp, r.Err = grpcCheck(req.Envoy(), n)
+			} else {
+				resp, r.Err = filter.Check(context.Background(), req.Envoy())
+			}
 			sim.ParseResp(r, resp)
 		}()
 		select {
@@ -416,7 +450,7 @@ func c16Prop(c *sim.Case) {
 	for g := range plans {
 		plans[g].tenant = sim.Pick(c, "tenant", nT)
 		for i := 0; i < perG; i++ {
-			plans[g].kinds = append(plans[g].kinds, sim.Weighted(c, "kind", 3, 4, 3, 1, 1))
+			plans[g].kinds = append(plans[g].kinds, sim.Weighted(c, "kind", 3, 4, 3, 1, 2))
 		}
 	}
 	bgSecret, bgCA, bgKeys := pickBool("bg-secret"), pickBool("bg-ca"), pickBool("bg-keys")
